@@ -187,6 +187,18 @@ class Net(Part):
                     ops += extra + [["join", 3]]
                     if valid(ops):
                         cases.append({"input": {"kinds": [[0, 1], [0, 1], [1], [0]], "ops": ops}, "class": "late_joiner_after_removal"})
+        # ---- a member joins a cluster with many activations (more than any plausible chunk or buffer size of the
+        # topology message), over links that encode a message only after Send has returned, like the real remote
+        # (round-4 seed C19-r4-2: topology sent in chunks that share one backing array)
+        for nact in ((70,) if tier == "quick" else (70, 150, 300, 700)):
+            # one existing member (what the joiner learns comes from that member alone), and two
+            ops = [["join", 0]] + [["activate", 0, 0, str(i + 1), 0] for i in range(nact)] + [["join", 1]]
+            cases.append({"input": {"kinds": [[0], [1]], "ops": ops, "lazy": True}, "class": "large_topology_late_joiner"})
+            ops = pre + [["activate", i % 2, 0, str(i + 1), i % 2] for i in range(nact)] + [["join", 2]]
+            cases.append({"input": {"kinds": [[0], [0], [1]], "ops": ops, "lazy": True}, "class": "large_topology_late_joiner"})
+        # the other classes again over such links
+        for c in list(cases[:40:4] if tier != "quick" else cases[:24:4]):
+            cases.append({"input": dict(c["input"], lazy=True), "class": c["class"] + "_lazy_links"})
         # ---- random
         nrand = 260 if tier == "quick" else 6000
         for r in range(nrand):
@@ -291,6 +303,13 @@ class Net(Part):
     def shrink(self, inp):
         out = []
         ops = inp["ops"]
+        if len(ops) > 24:        # long histories: whole blocks first
+            for k in (2, 4, 8):
+                w = len(ops) // k
+                for b in range(k):
+                    cand = ops[:b * w] + ops[(b + 1) * w:]
+                    if cand and valid(cand):
+                        out.append(dict(inp, ops=cand))
         for i in range(len(ops)):
             cand = ops[:i] + ops[i + 1:]
             if cand and valid(cand):
